@@ -10,8 +10,11 @@ def l2_part(run, exe_unused, results, env):
     exe2 = build("h_l2")
     A = c10.A; W = c10.W
     ccfgs = [("c13_c2w", dict(progs=[[W(1)], [W(1)], [A(-1)]], init={"V0": 1}, V0=1, MaxNow=1)),
-             ("c13_cw", dict(progs=[[W(1), W(1)], [A(-1)]], init={"V0": 1}, V0=1, MaxNow=1))]
-    l2lib.run_family(run, exe2, "Counter", "C13", ccfgs, lambda c: dict(V0=c.get("V0", 0), MaxNow=c.get("MaxNow", 0)), set(), {"O-mem"})
+             ("c13_cw", dict(progs=[[W(1), W(1)], [A(-1)]], init={"V0": 1}, V0=1, MaxNow=1)),
+             # the waiter learns that the counter is zero and, being its last user, frees it while the decrementer may still be inside add
+             ("c13_free", dict(progs=[[W(), l2lib.lop("free", d=0)], [A(-1)]], init={"V0": 1}, V0=1, MaxNow=0)),
+             ("c13_free2", dict(progs=[[W(), l2lib.lop("free", d=0)], [A(-1)], [A(-1)]], init={"V0": 2}, V0=2, MaxNow=0))]
+    l2lib.run_family(run, exe2, "Counter", "C13", ccfgs, lambda c: dict(V0=c.get("V0", 0), MaxNow=c.get("MaxNow", 0)), {"NoUseAfterFree"}, {"O-mem"})
     N = notelib
     ncfgs = [("c13_nw", dict(tree=N.T((1, 0, N.NONE)), NN=1, MaxNow=1, progs=[[N.WAIT(1, 1), N.POLL(1)], [N.NOTIFY(1)]])),
              ("c13_n2w", dict(tree=N.CHAIN2, NN=2, MaxNow=1, progs=[[N.WAIT(2, 1)], [N.WAIT(2, 1)], [N.NOTIFY(1)]]))]
